@@ -96,6 +96,26 @@ pub fn spec(id: &str) -> Spec {
                 nontrivial: |s, _| g(s, "conf_changes_applied") >= 3 && (g(s, "joint_entered") >= 1 || g(s, "conf_changes_rejected_at_apply") >= 1 || g(s, "conf_proposals_neutralised") >= 1),
                 rule: ">= 3 membership changes applied and >= 1 joint configuration entered, change rejected at apply, or proposal neutralised" }
         }
+        "S3" => {
+            // hunting profile for the stale-configuration election of DESIGN 12.1 (not a registered check)
+            p.name = "s3-hunt";
+            p.voters = (3, 3);
+            p.learners_max = 0;
+            p.spare_max = 3;
+            p.single_voter_pm = 0;
+            p.w_conf = 50;
+            p.illegal_conf_pm = 0;
+            p.skip_fsync_pm = 900;
+            p.async_pm = 400;
+            p.lazy_pm = 400;
+            p.slow_round_pm = 300;
+            p.fault_interval_ms = 150;
+            p.w_crash = 12;
+            p.w_partition = 10;
+            p.election_tick = (4, 8);
+            p.run_len = (800, 3000);
+            Spec { profile: p, quick_runs: quick, thorough_runs: thorough, nontrivial: |s, _| g(s, "conf_changes_applied") >= 2, rule: "hunt" }
+        }
         "C10" => {
             p.name = "liveness";
             p.stabilise_pm = 1000;
